@@ -25,6 +25,16 @@ class ParseLoop:
         for h, body in loops:
             t = fn.term(h)
             c = fmt(t.get("cond")) if t.get("cond") is not None else ""
+            bo = ir.as_binop(ir.unwrap(t.get("cond"))) if t.get("cond") is not None else None
+            if bo:
+                # `it != end` with `const auto end = args.end()`: a local defined once stands for its initialiser
+                from sa.valueflow import local_defs
+                for side in (bo[1], bo[2]):
+                    su = ir.unwrap(side)
+                    if isinstance(su, dict) and su.get("k") == "ref" and su.get("decl", "").startswith("local:"):
+                        defs = local_defs(fn, su["decl"][6:])
+                        if len(defs) == 1 and defs[0][0] == "init" and defs[0][1] is not None:
+                            c += " ~ " + fmt(defs[0][1])
             if self.argp in c and "end()" in c:
                 cand.append((h, body))
         if len(cand) > 1:
@@ -48,6 +58,10 @@ class ParseLoop:
             for side in (bo[1], bo[2]):
                 s = ir.unwrap(side)
                 if isinstance(s, dict) and s.get("k") == "ref" and s["decl"].startswith("local:"):
+                    from sa.valueflow import local_defs
+                    defs = local_defs(fn, s["decl"][6:])
+                    if len(defs) == 1 and defs[0][0] == "init" and defs[0][1] is not None and "end()" in fmt(defs[0][1]):
+                        continue  # the cached end iterator, not the loop variable
                     self.it = s["decl"][6:]
         if not self.it:
             ctx.broken(rule, fn, "token-loop", "cannot identify the loop iterator", fn)
